@@ -41,20 +41,22 @@ func Ops() []*core.Op {
 			ExhaustiveNote: "managed x deleting x {Never,0,1h} x clock at edge {-1s,-1ns,0,+1ns,+1s} x Delete outcome {ok,notfound,err}; managed, not deleting: {Never,1h} x terminationGracePeriod {0,1ns,10m,1h,2h} x NodePool {none, same, shorter expireAfter} x clock at {creation+expireAfter, creation+expireAfter-terminationGracePeriod, creation+1min} + edge x Delete outcome",
 		},
 		{
-			Name:       "c16.gc",
-			Doc:        "nodeclaim/garbagecollection Controller.Reconcile on the fake client: random clusters of NodeClaims / provider instances / Nodes (incl. terminating Nodes: deletion timestamp set, still present) with NodeClaim-list, provider-list and Delete failures (no Node-lookup failures); observes the set of NodeClaims Delete was called for",
-			N:          nq(3000, 40000),
-			Gen:        genGC,
-			Impl:       implGC,
-			Rule:       "non-trivial = at least one NodeClaim passes the registered / not-deleting / not-listed-by-provider filter (its Node is looked up)",
-			Nontrivial: gcNontrivial,
-			Labels:     gcLabels,
-			Signature:  gcSignature,
-			Shrink:     gcShrink,
+			Name:           "c16.gc",
+			Doc:            "nodeclaim/garbagecollection Controller.Reconcile on the fake client: random clusters of NodeClaims / provider instances / Nodes (incl. terminating Nodes: deletion timestamp set, still present) with NodeClaim-list, provider-list and Delete failures of every error class (kube API: internal / NotFound (bare, wrapped) / Conflict / Timeout / TooManyRequests / Forbidden / ServiceUnavailable / Expired / NoKindMatch / context canceled / deadline; provider: untyped / NodeClaimNotFoundError (bare, wrapped, joined) / InsufficientCapacityError / NodeClassNotReadyError / CreateError / kube NotFound / context errors; a failing provider List may return a partial result too) (no Node-lookup failures); observes the set of NodeClaims Delete was called for",
+			N:              nq(3000, 40000),
+			Gen:            genGC,
+			Enum:           enumGC,
+			Impl:           implGC,
+			ExhaustiveNote: "three Registered NodeClaims (Node Ready / NotReady / absent) x provider {lists all, lists none, lists all as terminating} x {no fault, NodeClaim list fails with each API error class, provider List fails with each provider error class x {nil, partial} result, Delete fails with each API error class}",
+			Rule:           "non-trivial = at least one NodeClaim passes the registered / not-deleting / not-listed-by-provider filter (its Node is looked up)",
+			Nontrivial:     gcNontrivial,
+			Labels:         gcLabels,
+			Signature:      gcSignature,
+			Shrink:         gcShrink,
 		},
 		{
 			Name:           "c16.gc_lookup",
-			Doc:            "garbagecollection Controller.Reconcile with the Node lookup failed (client interceptor) and with duplicate Nodes: exhaustive single-claim matrix + random clusters",
+			Doc:            "garbagecollection Controller.Reconcile with the Node lookup failed (client interceptor; every API error class, of collectable claims in 30% of the random clusters) and with duplicate Nodes: exhaustive single-claim matrix + random clusters",
 			N:              nq(1500, 15000),
 			Gen:            genGCLookup,
 			Enum:           enumGCLookup,
@@ -64,7 +66,7 @@ func Ops() []*core.Op {
 			Labels:         gcLabels,
 			Signature:      gcSignature,
 			Shrink:         gcShrink,
-			ExhaustiveNote: "one NodeClaim: Registered {True,False,Unknown,absent} x provider {absent,listed,terminating} x Nodes {none, one (4 Ready states x terminating or not), two (6 mixes, 2 with terminating Nodes)} x Node lookup {ok,failed} x deleting (failed lookups: 3 Node representatives)",
+			ExhaustiveNote: "one NodeClaim: Registered {True,False,Unknown,absent} x provider {absent,listed,terminating} x Nodes {none, one (4 Ready states x terminating or not), two (6 mixes, 2 with terminating Nodes)} x Node lookup {ok, failed with each API error class} x deleting (failed lookups: 3 Node representatives)",
 		},
 		{
 			Name: "c16.liveness",
